@@ -222,6 +222,46 @@ Proof.
   match type of H8 with var_rel _ ?a ?b _ _ _ => destruct (var_rel_sound asg a b _ _ _ C4 C4 H8) as [S8 C8] end. cbn [fst snd] in S8.
   split; [exact CQ|]. unfold ed_double. rewrite <- S2, <- S4, <- S8, E1, E2. reflexivity.
 Qed.
+
+(* completeness of the torsion block: the honest intermediate values of an
+   on-curve Q with point = [8]Q satisfy every row *)
+Theorem torsion_complete asg point n :
+  let Q := (asg n, asg (S (n))) in
+  let Q2 := (asg (S (S (S (S (S (S (n))))))), asg (S (S (S (S (S (S (S (n))))))))) in let Q4 := (asg (S (S (S (S (S (S (S (S (S (n)))))))))), asg (S (S (S (S (S (S (S (S (S (S (n)))))))))))) in
+  let Q8 := (asg (S (S (S (S (S (S (S (S (S (S (S (S (n))))))))))))), asg (S (S (S (S (S (S (S (S (S (S (S (S (S (n))))))))))))))) in
+  on_curve Q ->
+  asg (S (S (n))) = asg n * asg n -> asg (S (S (S (n)))) = asg (S (n)) * asg (S (n)) -> asg (S (S (S (S (n))))) = asg (S (S (n))) * asg (S (S (S (n)))) ->
+  asg (S (S (S (S (S (n)))))) = fst Q * snd Q -> Q2 = ed_add Q Q ->
+  asg (S (S (S (S (S (S (S (S (n))))))))) = fst Q2 * snd Q2 -> Q4 = ed_add Q2 Q2 ->
+  asg (S (S (S (S (S (S (S (S (S (S (S (n)))))))))))) = fst Q4 * snd Q4 -> Q8 = ed_add Q4 Q4 ->
+  (asg (fst point), asg (snd point)) = Q8 ->
+  block_sat (torsion_rows point n) asg.
+Proof.
+  cbv zeta. cbn [fst snd]. intros CQ A1 A2 A3 T2 E2 T4 E4 T8 E8 EP.
+  assert (C2 : on_curve (asg (S (S (S (S (S (S (n))))))), asg (S (S (S (S (S (S (S (n)))))))))) by (rewrite E2; apply ed_add_closed; exact CQ).
+  assert (C4 : on_curve (asg (S (S (S (S (S (S (S (S (S (n)))))))))), asg (S (S (S (S (S (S (S (S (S (S (n))))))))))))) by (rewrite E4; apply ed_add_closed; exact C2).
+  unfold torsion_rows.
+  apply block_sat_app; [apply closed_arith_block|]. split.
+  { apply block_sat_arith. repeat constructor.
+    - apply gate_add_rel; [intros _; reflexivity|]. unfold ext_value, c_mul.
+      cbn [c_m c_l c_r c_f c_c c_pi c_wa c_wb c_wd set_b set_a set_mult c_new]. rewrite A1. ring.
+    - apply gate_add_rel; [intros _; reflexivity|]. unfold ext_value, c_mul.
+      cbn [c_m c_l c_r c_f c_c c_pi c_wa c_wb c_wd set_b set_a set_mult c_new]. rewrite A2. ring.
+    - apply gate_add_rel; [intros _; reflexivity|]. unfold ext_value, c_mul.
+      cbn [c_m c_l c_r c_f c_c c_pi c_wa c_wb c_wd set_b set_a set_mult c_new]. rewrite A3. ring.
+    - unfold arith_rel, c_curve.
+      cbn [c_m c_l c_r c_o c_f c_c c_pi c_wa c_wb c_wc c_wd set_constant set_c set_output set_b set_right set_a set_left c_new pi_opt c_has_pi pi_val].
+      rewrite A3, A1, A2. unfold on_curve, curve_lhs, curve_rhs in CQ. cbn [fst snd] in CQ.
+      transitivity ((asg (S (n)) * asg (S (n)) - asg n * asg n) - (1 + ed_d * (asg n * asg n) * (asg (S (n)) * asg (S (n))))); [unfold fm1; ring|].
+      rewrite CQ. ring. }
+  apply block_sat_app; [apply var_rows_closed|]. split.
+  { apply var_rows_iff. apply var_rel_complete; cbn [fst snd]; assumption. }
+  apply block_sat_app; [apply var_rows_closed|]. split.
+  { apply var_rows_iff. apply var_rel_complete; cbn [fst snd]; assumption. }
+  apply block_sat_app; [apply var_rows_closed|]. split.
+  { apply var_rows_iff. apply var_rel_complete; cbn [fst snd]; assumption. }
+  apply block_sat_arith. inversion EP as [[X Y]]. repeat constructor; apply assert_equal_iff; assumption.
+Qed.
 End Torsion.
 
 (* ---- C12: negation, identity selection, scalar multiplication ---- *)
